@@ -53,10 +53,18 @@ func (e *c01Env) counts() (held, assigned int) {
 func TestVerifC01Seq(t *testing.T) {
 	defer c01PinGates()()
 	kit.Run(t, kit.Config{Property: "C01", Unit: "seq", Quick: 400, Thorough: 18000,
-		Rule: "histories of 40-200 operations on a real GroupQuotaManager: tree of 3-7 groups (depth <= 3, one fixed dimension set cpu,memory[+1 extended]), 4-12 pods that also request an undeclared dimension; pod add/update/label change/delete/reserve/unreserve/migrate/duplicate and unknown events 75%, quota set-max/min/weight/lent/is-parent/re-parent/delete/re-create/reset 20%, nodes 5%; oracle after every operation, fresh-manager and ResetQuota differentials every 25 operations; distinct = (tree shape, operation kind, #pods held, #pods assigned); non-trivial = case with >= 1 re-parent or delete of a group with non-zero subtree totals"},
+		Rule: "histories of 40-200 (6%: 200-400) operations on a real GroupQuotaManager: tree of 3-7 (18%: 8-14, 6%: 1-2) groups, depth limit 3 (20%: 5, 10%: 1), one fixed dimension set per case (cpu+memory, +extended, or any non-empty subset of 5 dimensions), 4-12 (12%: 13-24, 8%: 1-3) pods that also request undeclared dimensions, with init-container / overhead / empty request shapes and rare 2^40..2^50 magnitudes; per case 6-12%: non-default tree id, binding DefaultQuotaGroupMax, system/default groups declaring cpu/memory only, guarantee / ignore-overhead / immediate-ignore-terminating gates, pods on parent groups; pod add/update/label change/delete/reserve/unreserve/migrate/duplicate and unknown events 75%, quota set-max/min/weight/lent/is-parent/re-parent/delete/re-create/reset 20%, nodes 5%; oracle after every operation, fresh-manager and ResetQuota differentials every 25 operations; distinct = (tree shape, operation kind, #pods held, #pods assigned); non-trivial = case with >= 1 re-parent or delete of a group with non-zero subtree totals"},
 		func(c *kit.Case) {
 			r := c.R
-			e := c01NewEnv(c, r.Range(4, 12))
+			npods := r.Range(4, 12)
+			switch r.Weighted(80, 12, 8) {
+			case 1:
+				npods = r.Range(13, 24)
+			case 2:
+				npods = r.Range(1, 3)
+			}
+			e := c01NewEnv(c, npods)
+			defer e.restoreGates()
 			m := e.m
 			var agg map[string]*c01Agg // model figures before the current operation
 			rules := &c01QuotaRules{
@@ -91,19 +99,23 @@ func TestVerifC01Seq(t *testing.T) {
 					return a != nil && !(a.req.isZero() && a.used.isZero() && a.npReq.isZero())
 				},
 				reuseNames: true,
-				maxGroups:  7,
+				maxGroups:  e.maxGroups,
 			}
 			e.check(&c01Ctx{where: "after building the tree"})
 			nops := r.Range(40, 200)
+			if r.Pct(6) {
+				nops = r.Range(200, 400)
+			}
 			stage := 0 // reserve -> re-parent -> delete seen in this order
 			for op := 0; op < nops; op++ {
 				ctx := &c01Ctx{where: fmt.Sprintf("after operation %d", op)}
 				kind := ""
 				switch r.Weighted(75, 20, 5) {
 				case 0:
-					ctl := &c01PodCtl{dests: append(m.leaves(), extension.DefaultQuotaName, extension.SystemQuotaName),
-						lateNames: append([]string{fmt.Sprintf("q%d", e.nextName)}, e.deleted...),
-						exists:    func(n string) bool { return m.groups[n] != nil }}
+					ctl := &c01PodCtl{dests: e.dests(), exists: func(n string) bool { return m.groups[n] != nil }}
+					if !m.noSysDefault { // a pod whose quota is unknown is parked in the default group
+						ctl.lateNames = append([]string{fmt.Sprintf("q%d", e.nextName)}, e.deleted...)
+					}
 					kind = e.podOp(r, kit.Pick(r, m.pods), ctl)
 					e.staleCtx(ctx, ctl.staleMigrate)
 					if ctl.lateEvent != nil {
@@ -131,6 +143,7 @@ func TestVerifC01Seq(t *testing.T) {
 					kind = "node"
 				}
 				c.Count("op_"+kind, 1)
+				ctx.resetOp = kind == "quota-reset" || kind == "quota-toggle-lent" || kind == "quota-toggle-is-parent"
 				e.check(ctx)
 				e.heal(ctx.where)
 				held, asg := e.counts()
@@ -167,15 +180,20 @@ func TestVerifC01Seq(t *testing.T) {
 func TestVerifC01Conc(t *testing.T) {
 	defer c01PinGates()()
 	kit.Run(t, kit.Config{Property: "C01", Unit: "conc", Quick: 200, Thorough: 7000,
-		Rule: "3-6 rounds per case on a real GroupQuotaManager under the race detector: 4-8 worker goroutines issue 6-14 pod operations each on disjoint pods (8-16 pods), one goroutine issues 2-6 quota mutations (set-max/min/weight/lent, re-parent, delete of pre-selected groups, create, reset, nodes), one goroutine reads (RefreshRuntime, summaries, snapshot); yields between operations; oracle (recompute from scratch) at each quiescent point, fresh-manager and ResetQuota differentials at the end; distinct = (tree shape, #workers, #pods held, #pods assigned, quota operation kinds of the round); non-trivial = case with >= 1 re-parent or delete of a group with non-zero subtree totals issued concurrently with pod events"},
+		Rule: "3-6 rounds per case on a real GroupQuotaManager under the race detector: 4-8 worker goroutines issue 6-14 pod operations each on disjoint pods (8-16, 12%: 17-28 pods; same per-case configuration draws as the sequential unit), 1-3 same-pod scheduler/informer pairs per round, one goroutine issues 2-6 quota mutations (set-max/min/weight/lent, re-parent, delete of pre-selected groups, create, reset, nodes), one goroutine reads (RefreshRuntime, summaries, snapshot); yields between operations; oracle (recompute from scratch) at each quiescent point, fresh-manager and ResetQuota differentials at the end; distinct = (tree shape, #workers, #pods held, #pods assigned, quota operation kinds of the round); non-trivial = case with >= 1 re-parent or delete of a group with non-zero subtree totals issued concurrently with pod events"},
 		func(c *kit.Case) {
 			r := c.R
-			e := c01NewEnv(c, r.Range(8, 16))
+			npods := r.Range(8, 16)
+			if r.Pct(12) {
+				npods = r.Range(17, 28)
+			}
+			e := c01NewEnv(c, npods)
+			defer e.restoreGates()
 			m := e.m
 			// start from a populated manager
 			for _, p := range m.pods {
 				if r.Pct(60) {
-					e.podOp(r, p, &c01PodCtl{dests: append(m.leaves(), extension.DefaultQuotaName, extension.SystemQuotaName)})
+					e.podOp(r, p, &c01PodCtl{dests: e.dests()})
 				}
 			}
 			e.check(&c01Ctx{where: "after the sequential prologue"})
@@ -220,14 +238,25 @@ func (e *c01Env) concRound(r *kit.Rand, round int) {
 			doomed[n] = true
 		}
 	}
-	dests := append(stable, extension.DefaultQuotaName, extension.SystemQuotaName)
+	if m.parentPods {
+		for _, n := range m.groupNames() {
+			if m.groups[n].isParent && !doomed[n] {
+				stable = append(stable, n) // SupportParentQuotaSubmitPod: parent groups hold pods too
+			}
+		}
+	}
+	dests := append(append([]string{}, stable...), e.special()...)
 	nworkers := r.Range(4, 8)
 	c.Op("--- round %d: %d workers, stable=%v doomed=%v reserved=%v", round, nworkers, stable, c01Keys(doomed), c01Keys(reserved))
 
 	// same-pod stream: 1-3 pods leave the workers and get a scheduler/informer pair each
 	var races []*c01Race
 	contested := map[int]bool{}
-	for _, i := range r.Perm(len(m.pods))[:r.Range(1, 3)] {
+	nraces := r.Range(1, 3)
+	if len(dests) == 0 {
+		nraces = 0 // nowhere to attach a pod (non-default tree without a leaf)
+	}
+	for _, i := range r.Perm(len(m.pods))[:nraces] {
 		p := m.pods[i]
 		contested[p.slot] = true
 		race := e.prepareRace(r, p, dests)
@@ -299,7 +328,7 @@ func (e *c01Env) concRound(r *kit.Rand, round int) {
 			return false
 		},
 		reuseNames: false,
-		maxGroups:  8,
+		maxGroups:  e.maxGroups + 1,
 	}
 	nq := qr.Range(2, 6)
 	saveFail := e.failf
@@ -374,7 +403,7 @@ func (e *c01Env) concRound(r *kit.Rand, round int) {
 	}
 	ctx.tainted = map[string]bool{}
 	for _, d := range detaches { // in the order they were issued
-		if d.possiblyLimited(m.nd, recs) {
+		if d.possiblyLimited(m.dims, recs) {
 			d.limited = true
 			c.Count("detach_of_possibly_max_limited_group", 1)
 			for a := range d.ancestors {
@@ -404,6 +433,11 @@ func (e *c01Env) concRound(r *kit.Rand, round int) {
 		ctx.schedAll = true // the ancestors changed during the round
 	}
 	e.heal(ctx.where) // a same-pod violation with a narrow signature: go on with a fresh manager
+	for _, k := range qkinds {
+		if k == "quota-reset" || k == "quota-toggle-lent" || k == "quota-toggle-is-parent" {
+			ctx.resetOp, ctx.resetLoose = true, true
+		}
+	}
 	sort.Strings(qkinds)
 	c.Count("rounds", 1)
 	c.Seen("interleaving", ilv)
